@@ -104,6 +104,8 @@ def derived_menu(fm, rich=False):
     out.append(within('W', ['A', 'B'], fm, same))
     out.append(window('TA', ['A'], fm, 2, same, kind='transition', start=1))
     out.append(window('TB', ['B'], fm, 2, same, kind='transition', start=1))
+    # direction-sensitive transition: only the step a0 -> a1 is "up"
+    out.append(window('TX', ['A'], fm, 2, lambda k: 0 if (k[0][-1] == '0' and k[1][-1] == '1') else 1, kind='transition', start=1))
     if rich:
         out.append(within('W', ['A', 'B'], fm, lambda k: 0 if (k[0][-1] == '0' and k[1][-1] == '0') else 1, else_idx=1))
         out.append(window('TAB', ['A', 'B'], fm, 2, lambda k: 0 if (k[0] == k[1] and k[2] == k[3]) else 1, kind='transition', start=1))
@@ -147,6 +149,16 @@ def s1(tier):
                     conss.append([{'c': 'LatinSquare', 'factors': ['A', 'B']}])
                 for cs in conss:
                     out.append(spec(factors, cross(names, cr, cs), 'S1'))
+    return out
+
+
+def s1_latin3(tier):
+    """LatinSquare over two three-level factors (A2: two readings for the diagonal orientation)"""
+    if tier != 'thorough':
+        return []          # the reference enumeration alone takes tens of seconds
+    C = basic('C', 3)
+    E = basic('E', 3)
+    out = [spec([C, E], cross(['C', 'E'], ['C', 'E'], [{'c': 'LatinSquare', 'factors': ['C', 'E']}]), 'S1')]
     return out
 
 
@@ -215,7 +227,7 @@ def s2(tier):
                     out.append(spec(factors, cross(names, cr, cs), 'S2'))
                 # the same weighted crossing repeated, with whole and partial last repetition
                 if size <= 3:
-                    for mt in (2 * size, 2 * size + 1, 2 * size + 2):
+                    for mt in (size + 1, size + 2, 2 * size, 2 * size + 1, 2 * size + 2):
                         out.append(spec(factors, {'op': 'repeat', 'block': cross(names, cr, []),
                                                   'constraints': [{'c': 'MinimumTrials', 'k': mt}]}, 'S2'))
     return out
@@ -381,6 +393,16 @@ def s5(tier):
                  [{'c': 'Pin', 'index': 0, 'factor': 'A', 'level': 'a0'}]]
     if tier == 'thorough':
         cons_menu += [[{'c': 'ExactlyK', 'k': 2, 'factor': 'A', 'level': 'a0'}], [{'c': 'MinimumTrials', 'k': 7}]]
+    # Merge of two different blocks, one of them carrying its own (block-scoped) constraint
+    own = [[{'c': 'AtMostKInARow', 'k': 1, 'factor': 'B', 'level': 'b0'}], [{'c': 'Pin', 'index': -1, 'factor': 'B', 'level': 'b1'}],
+           [{'c': 'ExactlyK', 'k': 1, 'factor': 'B', 'level': 'b0'}]]
+    for cs1 in own:
+        for mode in ('weight', 'repeat'):
+            for second, fs in ((cross(['A', 'B', 'C'], ['C']), [A, B, C]), (cross(['A', 'B'], ['B']), [A, B])):
+                first = cross(['A', 'B'], ['A'], cs1)
+                for outer in ([], [{'c': 'AtMostKInARow', 'k': 2, 'factor': 'A', 'level': 'a0'}]):
+                    out.append(spec(fs, {'op': 'merge', 'blocks': [first, second], 'constraints': outer, 'mode': mode,
+                                         'alignment': 'equal preamble'}, 'S5'))
     for factors, crossings in cases:
         names = [f['name'] for f in factors]
         for mode in ('equal', 'weight', 'repeat'):
@@ -495,7 +517,7 @@ def s9(tier):
     return out
 
 
-STRATA = {'S9': s9, 'S2s': s2_small, 'S1': s1, 'S1x': s1_exclude, 'S2': s2, 'S3': s3, 'S4': s4, 'S5': s5, 'S6': s6}
+STRATA = {'S9': s9, 'S2s': s2_small, 'S1L': s1_latin3, 'S1': s1, 'S1x': s1_exclude, 'S2': s2, 'S3': s3, 'S4': s4, 'S5': s5, 'S6': s6}
 
 
 def shape_key(d):
